@@ -31,7 +31,13 @@ for sid in ids:
     subprocess.run(["git", "-C", "/repo", "worktree", "remove", "--force", wt], capture_output=True)
     subprocess.run(["git", "-C", "/repo", "worktree", "add", "-q", wt, "HEAD"], check=True)
     try:
-        ap = subprocess.run(["git", "-C", wt, "apply", "--3way", os.path.join(d, "patch.diff")], capture_output=True, text=True)
+        # patch.diff as written by the seeding agent; if /repo has moved under it, a hand-rebased copy
+        # patch.rebased-<commit>.diff (same change, re-made against the newer tree) is tried next
+        cands = [os.path.join(d, "patch.diff")] + sorted(os.path.join(d, f) for f in os.listdir(d) if f.startswith("patch.rebased-"))
+        for cand in cands:
+            ap = subprocess.run(["git", "-C", wt, "apply", "--3way", cand], capture_output=True, text=True)
+            if ap.returncode == 0: break
+            subprocess.run(["git", "-C", wt, "checkout", "--", "."], capture_output=True)
         if ap.returncode != 0:
             results[sid] = {"property": meta["property"], "applied": False, "detail": ap.stderr[-300:]}
             save_one(sid, results[sid])
